@@ -231,6 +231,11 @@ def _sgpr_eager(case, fl):
     return case["family"] == "sgpr" and "pred_eager" in (fl.get("prefix") or [])
 
 
+def _ski_dyn_fantasy(case, fl):
+    """KISS-GP with a data-dependent grid: the fantasy child's caches sit on the parent's grid, its recomputation on a new one"""
+    return case["family"] == "ski_dynamic_grid" and fl.get("monitor") == "fantasy_first_prediction_matches_recomputed" and fl.get("op") == "fantasy_selfcheck"
+
+
 def _ski_dyn_eager(case, fl):
     """KISS-GP with a data-dependent grid (grid_bounds=None): the grid is re-derived from the inputs of each kernel call, so a
     prediction under lazily_evaluate_kernels(False) (different order / grouping of kernel calls) differs from the lazy one and
@@ -244,4 +249,4 @@ def _loose_caches(case, fl):
     return case["family"] not in VAR_FAMS and "pred_loose" in (fl.get("prefix") or [])
 
 
-MATCHERS = {"C03-sgpr-eager-kernel-evaluation": _sgpr_eager, "C03-ski-dynamic-grid-eager": _ski_dyn_eager, "C03-exact-caches-ignore-numerical-settings": _loose_caches}
+MATCHERS = {"C03-ski-dynamic-grid-fantasy": _ski_dyn_fantasy, "C03-sgpr-eager-kernel-evaluation": _sgpr_eager, "C03-ski-dynamic-grid-eager": _ski_dyn_eager, "C03-exact-caches-ignore-numerical-settings": _loose_caches}
